@@ -55,7 +55,7 @@ def validate_octave_path(target_path: str) -> tuple[bool, str | None]:
             current = Path("/")
             for part in absolute.parts[1:]:  # Skip root
                 current = current / part
-                if current.exists() and current.is_symlink():
+                if current.is_symlink():  # is_symlink() alone: exists() follows the link and is False for a dangling one
                     # Found a symlink - check if it's a system symlink
                     symlink_depth = len(Path(current).parts)
                     resolved_target = current.resolve()
